@@ -100,11 +100,12 @@ class Tup(AV):
 
 class Term(AV):
     """Uninterpreted value with provenance: op + argument values. `ty` is the rust type string."""
-    __slots__ = ("op", "args", "ty", "_k")
+    __slots__ = ("op", "args", "ty", "_k", "_r")
 
     def __init__(self, op, args=(), ty=None):
         self.op, self.args, self.ty = op, tuple(args), ty
         self._k = None
+        self._r = None
 
     def key(self):
         if self._k is None:
@@ -114,7 +115,14 @@ class Term(AV):
     def __repr__(self):
         if not self.args:
             return "%s" % self.op
-        return "%s(%s)" % (self.op, ", ".join(repr(a) for a in self.args))
+        r = getattr(self, "_r", None)
+        if r is None:
+            r = "%s(%s)" % (self.op, ", ".join(repr(a) for a in self.args))
+            try:
+                object.__setattr__(self, "_r", r)
+            except AttributeError:
+                pass
+        return r
 
 
 class LA(AV):
@@ -320,6 +328,11 @@ class Path:
         self.events = st.events
 
 
+import re as _re_mod
+_FACT_POS_RE = _re_mod.compile(r"'main'\), \('C', 'int', (\d+)\)")
+_POS_RE = _re_mod.compile(r"(?:main|la\d+|ck)(?:@|', )(-?\d+)")
+
+
 class Segment:
     """One explored execution segment: events[start:] of out.st (a function activation or a loop)."""
     __slots__ = ("out", "start", "level", "name")
@@ -363,10 +376,12 @@ class Interp:
         self.unanalysed = []   # (fn, construct, site)
         self.inline_filter = inline_filter
         self.fn_stack = []
+        self.call_sites = []
         self.phf = {}
         self._load_phf()
         self.from_table = self._load_from_impl()
         self.loop_assigned_cache = {}
+        self._fact_info = {}
         self.checkers = []      # segment checkers: fn(I, Segment)
         self.obs = {}           # (rule, key) -> dict(ok, site, detail, n)
         self.prune = True
@@ -409,9 +424,36 @@ class Interp:
         if ent not in self.unanalysed:
             self.unanalysed.append(ent)
 
+    WRAPPERS = frozenset([
+        "Lexer::emit_token", "Lexer::emit_token_at_mark", "Lexer::push_mode", "Lexer::pop_mode",
+        "Lexer::emit_error", "Lexer::emit_error_info", "Lexer::checkpoint", "Lexer::clear_checkpoint",
+        "Lexer::rollback", "Lexer::emit_empty_macro_string_token", "Lexer::update_last_token",
+        "Lexer::start_token", "Lexer::add_line", "Lexer::mode", "Lexer::set_pending_stat",
+        "Lexer::push_pending_stat", "Lexer::pop_pending_stat", "Lexer::pending_stat",
+        "Lexer::mark_token_start", "Lexer::prep_error_info_at_cur_offset", "error::ErrorInfo::new",
+        "Lexer::cur_byte_offset", "Lexer::cur_char_offset", "text::ByteOffset::new", "text::CharOffset::new"])
+
+    def owner(self):
+        """Innermost active crate function that is not one of the thin Lexer wrappers."""
+        for nme in reversed(self.fn_stack):
+            if nme not in self.WRAPPERS:
+                return nme
+        return self.fn_stack[0] if self.fn_stack else "?"
+
+    def owner_site(self, node):
+        """(owner function, site in the owner) for an event raised at `node`: if the event comes from inside a
+        thin wrapper, the site is the wrapper call in the owner."""
+        i = len(self.fn_stack) - 1
+        site = node.get("sp") if isinstance(node, dict) else None
+        while i >= 0 and self.fn_stack[i] in self.WRAPPERS:
+            site = self.call_sites[i]
+            i -= 1
+        return (self.fn_stack[i] if i >= 0 else (self.fn_stack[0] if self.fn_stack else "?")), site
+
     def emit(self, st, evk, node, **d):
+        own, osite = self.owner_site(node)
         st.events.append(Ev(evk, node.get("sp") if isinstance(node, dict) else None,
-                            self.fn_stack[-1] if self.fn_stack else "?", node=node, **d))
+                            self.fn_stack[-1] if self.fn_stack else "?", node=node, owner=own, osite=osite, **d))
 
     def tick(self):
         self.steps += 1
@@ -461,7 +503,7 @@ class Interp:
                 d = e.d
                 if k == "emit":
                     evs.append((k, e.site, repr(d["channel"]), repr(d["type"]), repr(d["payload"])[:40],
-                                repr(d["byte"]), d.get("pos")))
+                                repr(d["byte"])))
                 elif k == "error":
                     evs.append((k, e.site, repr(d.get("err")), d.get("ckpt")))
                 elif k in ("push", "pop"):
@@ -481,24 +523,39 @@ class Interp:
         la = tuple(repr(st.cs.get(("LA", strm, main.pos + i))) for i in (0, 1))
         eofs = tuple(sorted((k, v) for k, v in st.fields.get("_eof", {}).items() if k[0] == strm and k[1] >= main.pos))
         facts = []
-        import re as _re
-        for fk, fv in list(st.bfacts.items()) + [(k, (tuple(sorted(v[0])) if v[0] is not None else None, tuple(sorted(v[1])))) for k, v in st.vfacts.items()]:
-            r = repr(fk)
-            if "#" in r:
+        fic = self._fact_info
+        for fk, fv in itertools.chain(st.bfacts.items(), st.vfacts.items()):
+            info = fic.get(fk)
+            if info is None:
+                r = repr(fk)
+                # facts about fresh symbols or about the *content* of consumed text are value-level and
+                # cannot be re-tested by the caller
+                drop = ("#" in r or "str_slice" in r or "str_get" in r or "as_str" in r or "numparse" in r
+                        or "token_iter" in r)
+                ps = [int(x) for x in _FACT_POS_RE.findall(r)] if not drop else []
+                info = fic[fk] = (r, drop, max(ps) if ps else None)
+            if info[1]:
                 continue
-            ps = [int(x) for x in _re.findall(r"'main'\), \('C', 'int', (\d+)\)", r)]
-            if ps and all(p < main.pos for p in ps):
+            if info[2] is not None and info[2] < main.pos:
                 continue
-            facts.append((r, fv))
+            if isinstance(fv, tuple):
+                fv = (tuple(sorted(fv[0])) if fv[0] is not None else None, tuple(sorted(fv[1])))
+            facts.append((info[0], fv))
         facts.sort(key=lambda x: x[0])
         nframes = fidx + (1 if with_frame else 0)
         frames = tuple(tuple(sorted((k, repr(v)) for k, v in fr.items())) for fr in st.frames[:nframes])
         consumed = any(e.kind == "consume" for e in st.events[start:])
         tok_started = any(e.kind == "cur_token_write" for e in st.events[start:])
-        return (o.kind, repr(o.val) if o.val is not None else None, o.target, tuple(evs), nl_pending, consumed, tok_started,
-                repr(st.stack), st.base, st.below_pops, st.ckpt, st.stack_ok, la, eofs, tuple(facts), frames,
-                repr(st.nesting), repr(sorted(st.cur_token.items(), key=lambda x: x[0])) if not tok_started else None,
-                main.exact)
+        sig = (o.kind, repr(o.val) if o.val is not None else None, o.target, tuple(evs), nl_pending, consumed, tok_started,
+               repr(st.stack), st.base, st.below_pops, st.ckpt, st.stack_ok, la, eofs, tuple(facts), frames,
+               repr(st.nesting), repr(sorted(st.cur_token.items(), key=lambda x: x[0])) if not tok_started else None)
+        # canonical (order-preserving) renaming of cursor position labels: paths that differ only in how
+        # many characters a scan consumed are equivalent for the path-level rules; the exactness-sensitive
+        # rules run on the unpruned segments (see DESIGN 2.2)
+        txt = repr(sig)
+        nums = sorted({int(x) for x in _POS_RE.findall(txt)})
+        rank = {n: i for i, n in enumerate(nums)}
+        return _POS_RE.sub(lambda m: m.group(0).replace(m.group(1), "p%d" % rank[int(m.group(1))]), txt)
 
     def prune_outs(self, outs, start, fidx, with_frame=False):
         if not self.prune or len(outs) <= self.prune_min:
@@ -538,6 +595,7 @@ class Interp:
         st.frames.append(frame)
         fidx = len(st.frames) - 1
         self.fn_stack.append(name)
+        self.call_sites.append(node.get("sp") if isinstance(node, dict) else None)
         try:
             e0 = len(st.events)
             self.stats["activations"] += 1
@@ -568,6 +626,7 @@ class Interp:
             return self.prune_outs(res, e0, fidx)
         finally:
             self.fn_stack.pop()
+            self.call_sites.pop()
 
     # ---- patterns -----------------------------------------------------------
     def bind(self, pat, val, st, fidx):
@@ -898,6 +957,15 @@ class Interp:
             return cur
         if a.key() == b.key():
             return [(True, st)]
+        # x == !x is false
+        if isinstance(a, Term) and a.op == "not" and a.args and a.args[0].key() == b.key():
+            return [(False, st)]
+        if isinstance(b, Term) and b.op == "not" and b.args and b.args[0].key() == a.key():
+            return [(False, st)]
+        # the pending-statement stack is never empty (R-9009 checks the only pop is guarded by len() > 1)
+        for x, y in ((a, b), (b, a)):
+            if isinstance(x, Term) and x.op == "pending_len" and isinstance(y, Const) and y.v == 0:
+                return [(False, st)]
         # enum constant vs unknown with variant facts
         if isinstance(b, Enum) and not b.args and not b.fields and not isinstance(a, (Enum, Const)):
             return self.test_variant(a, b.path, [], None, st, len(st.frames) - 1)
@@ -1124,7 +1192,9 @@ class Interp:
                 v = LEXER
             return [Out("val", v, st)]
         if "def" in r:
-            p = F.norm(r["def"])
+            p = r.get("_nd")
+            if p is None:
+                p = r["_nd"] = F.norm(r["def"])
             dk = r.get("dk", "")
             if dk.startswith("Ctor") or dk in ("Variant",):
                 return [Out("val", Enum(canon_path(p)), st)] if "Fn" not in dk else [Out("val", FnRef(p), st)]
@@ -1336,6 +1406,22 @@ class Interp:
                         return [Out("val", TRUE, st)]
                 if x[2] > y[2] and x[3] >= y[3] and op in ("Lt", "Gt"):
                     return [Out("val", FALSE, st)]
+        if op in ("Gt", "Lt", "Ge", "Le") and n is not None:
+            x, y, o2 = a, b, op
+            if isinstance(a, Const):
+                x, y = b, a
+                o2 = {"Gt": "Lt", "Lt": "Gt", "Ge": "Le", "Le": "Ge"}[op]
+            lty = (n["l"].get("ty") if x is a else n["r"].get("ty")) or ""
+            if isinstance(y, Const) and y.v == 0 and lty in ("u8", "u16", "u32", "u64", "usize") and not isinstance(x, Const):
+                if o2 == "Ge":
+                    return [Out("val", TRUE, st)]
+                if o2 == "Lt":
+                    return [Out("val", FALSE, st)]
+                key = ("eq",) + tuple(sorted([repr(x.key()), repr(y.key())]))
+                f = st.bfacts.get(key)
+                if f is not None:
+                    # unsigned: x > 0  <=>  x != 0 ; x <= 0 <=> x == 0
+                    return [Out("val", cbool((not f) if o2 == "Gt" else f), st)]
         if isinstance(a, SLen) and isinstance(b, Const) and b.t == "int":
             if op == "Sub":
                 return [Out("val", SLen(a.d - b.v), st)]
@@ -1727,35 +1813,56 @@ class Interp:
                 else:
                     res.append(o)
 
+        entry_pos = {cid: c.pos for cid, c in st.cursors.items()}
         back1 = []
         classify(self.ev_block(n["body"], st, fidx), back1)
         if back1:
             assigned = self.assigned_in(n["body"])
-            # widen each distinct back-edge state signature once
-            seen = set()
-            back2 = []
+            # cursors that moved during the first iteration on some path are advanced by an unknown amount
+            moved = set()
+            for s in back1:
+                for cid, c in s.cursors.items():
+                    if entry_pos.get(cid) != c.pos:
+                        moved.add(cid)
             for s in back1:
                 self.emit(s, "loop_back", n, loop=lid, iteration=1, progressed=s.cursors["main"].pos > entry_main_pos)
-                w = self.widen(s, assigned, n, fidx)
-                sig = self.widen_sig(w, fidx, assigned)
-                if sig in seen:
-                    continue
-                seen.add(sig)
-                pos0 = w.cursors["main"].pos
-                outs = self.ev_block(n["body"], w, fidx)
-                b2 = []
-                classify(outs, b2)
-                for s2 in b2:
-                    self.emit(s2, "loop_back", n, loop=lid, iteration=2, progressed=s2.cursors["main"].pos > pos0)
-                    # generic iteration reaching the back-edge again: covered by the widened state, but the
-                    # path itself is kept (as a truncated path) so that per-iteration rules see its events
-                    res.append(Out("loopback", None, s2))
+            res_before = len(res)
+            for _round in range(4):
+                del res[res_before:]
+                seen = set()
+                more = set()
+                for s in back1:
+                    w = self.widen(s, assigned, n, fidx, moved)
+                    sig = self.widen_sig(w, fidx, assigned)
+                    if sig in seen:
+                        continue
+                    seen.add(sig)
+                    pos0 = {cid: c.pos for cid, c in w.cursors.items()}
+                    outs = self.ev_block(n["body"], w, fidx)
+                    b2 = []
+                    classify(outs, b2)
+                    for o2 in res[res_before:]:
+                        for cid, c in o2.st.cursors.items():
+                            if cid in pos0 and pos0[cid] != c.pos and cid not in moved:
+                                more.add(cid)
+                    for s2 in b2:
+                        for cid, c in s2.cursors.items():
+                            if cid in pos0 and pos0[cid] != c.pos and cid not in moved:
+                                more.add(cid)
+                        self.emit(s2, "loop_back", n, loop=lid, iteration=2, progressed=s2.cursors["main"].pos > pos0["main"])
+                        # generic iteration reaching the back-edge again: covered by the widened state, but the
+                        # path itself is kept (as a truncated path) so that per-iteration rules see its events
+                        res.append(Out("loopback", None, s2))
+                if not more:
+                    break
+                # a cursor that only starts moving in later iterations: widen it too and redo
+                moved |= more
         if len(res) > self.prune_min and self.prune:
             self.sink(res, l0, "loop", self.fn_stack[-1] if self.fn_stack else "?")
             res = self.prune_outs(res, l0, fidx, with_frame=True)
         return res
 
-    def widen(self, s, assigned, n, fidx):
+    def widen(self, s, assigned, n, fidx, moved=None):
         w = s.clone()
         # locals assigned syntactically in the loop body live in the current frame; closures that the body
         # may call (closure values held in any frame) assign locals of their defining frame
@@ -1769,19 +1876,28 @@ class Interp:
             for lid in list(fr.keys()):
                 if lid in ids:
                     v = fr[lid]
-                    if isinstance(v, Obj) and v.kind == "cursor" and v.id != "main":
-                        c = w.cursors.get(v.id)
-                        if c is not None:
-                            self.jump(w, c)
+                    if isinstance(v, Obj) and v.kind == "cursor":
+                        pass
                     elif isinstance(v, (Obj, Closure, FnRef)):
                         pass
+                    elif lid in self.mark_locals(n) and (v.key() == NONE.key() or (isinstance(v, Enum) and v.variant == "Some") or (isinstance(v, Term) and v.op == "optmark")):
+                        # Option<mark> only ever set to None / Some(mark_token_start()) / kept: later it is
+                        # None or an earlier mark
+                        j = w.fields.get("_jump", 0) + 1
+                        p = j * 100000 - 50000
+                        mc = dict(w.fields.get("_minc", {}))
+                        mc[p] = mc.get(w.cursors["main"].pos, 0)
+                        w.fields["_minc"] = mc
+                        fr[lid] = Term("optmark", (Const("int", p),), None)
                     elif lid in self.snapshot_locals(n) and self.resnap(v, w) is not None:
                         # the local only ever receives snapshots of the current cursor position inside the
                         # loop: in later iterations it holds *some earlier* snapshot
                         fr[lid] = self.resnap(v, w)
                     else:
                         fr[lid] = w.sym("loopvar", None)
-        self.jump(w, w.cursors["main"])
+        for cid in sorted(moved if moved is not None else ["main"]):
+            if cid in w.cursors:
+                self.jump(w, w.cursors[cid])
         self.emit(w, "loop_widen", n, loop=n.get("id"))
         return w
 
@@ -1802,6 +1918,43 @@ class Interp:
                         good.add(lid)
                     else:
                         bad.add(lid)
+        res = good - bad
+        self.loop_assigned_cache[key] = res
+        return res
+
+    def mark_locals(self, loop):
+        """Locals of type Option<mark> that, inside this loop, are only assigned `None`, or
+        `x.or_else(|| Some(self.mark_token_start()))`, or `Some(self.mark_token_start())`."""
+        key = ("mark", id(loop))
+        if key in self.loop_assigned_cache:
+            return self.loop_assigned_cache[key]
+        good, bad = set(), set()
+
+        def is_mark_call(e):
+            e = strip_dt(e)
+            return e.get("k") == "MethodCall" and F.norm(e.get("def")) == "Lexer::mark_token_start"
+
+        def ok_rhs(r, lid):
+            r = strip_dt(r)
+            if r.get("k") == "Path" and F.norm(r["res"].get("def", "")).endswith("None"):
+                return True
+            if r.get("k") == "Call" and r.get("ctor") and F.norm(r.get("def", "")).endswith("Some") and is_mark_call(r["args"][0]):
+                return True
+            if r.get("k") == "MethodCall" and r.get("name") == "or_else":
+                rc = strip_dt(r["recv"])
+                if rc.get("k") == "Path" and rc["res"].get("local") == lid:
+                    cl = strip_dt(r["args"][0])
+                    if cl.get("k") == "Closure":
+                        b = strip_dt(cl["body"])
+                        if b.get("k") == "Call" and b.get("ctor") and is_mark_call(b["args"][0]):
+                            return True
+            return False
+        for x, par in F.walk(loop["body"]):
+            if x.get("k") == "Assign":
+                l = strip_dt(x["l"])
+                if l.get("k") == "Path" and "local" in l.get("res", {}):
+                    lid = l["res"]["local"]
+                    (good if ok_rhs(x["r"], lid) else bad).add(lid)
         res = good - bad
         self.loop_assigned_cache[key] = res
         return res
@@ -1857,7 +2010,9 @@ class Interp:
                 for vals, s in cur:
                     res.extend(self.apply(o.val, vals, s, n, fidx))
             return res
-        callee = F.norm(n["def"])
+        callee = n.get("_nd")
+        if callee is None:
+            callee = n["_nd"] = F.norm(n["def"])
         cur, others = self.ev_list(n["args"], st, fidx)
         res = list(others)
         for vals, s in cur:
@@ -1868,7 +2023,9 @@ class Interp:
         return res
 
     def ev_MethodCall(self, n, st, fidx):
-        callee = F.norm(n.get("def")) if n.get("def") else "?::" + n["name"]
+        callee = n.get("_nd")
+        if callee is None:
+            callee = n["_nd"] = F.norm(n.get("def")) if n.get("def") else "?::" + n["name"]
         cur, others = self.ev_list([n["recv"]] + n["args"], st, fidx)
         res = list(others)
         for vals, s in cur:
